@@ -169,10 +169,10 @@ def _iter_child_nodes_in_order_internal_1(node):
             res = (
                 node.type_comment,
                 node.decorator_list,
+                node.type_params,
                 node.args,
                 node.returns,
                 node.body,
-                node.type_params
             )
             yield res
 
@@ -199,7 +199,7 @@ def _iter_child_nodes_in_order_internal_1(node):
     elif isinstance(node, ast.ClassDef):
         if sys.version_info > (3, 12):
             assert node._fields == ('name', 'bases', 'keywords', 'body', 'decorator_list', 'type_params'), node._fields
-            yield node.decorator_list, node.bases, node.body, node.type_params
+            yield node.decorator_list, node.type_params, node.bases, node.body
         else:
             assert node._fields == ('name', 'bases', 'keywords', 'body', 'decorator_list'), node._fields
             yield node.decorator_list, node.bases, node.body
